@@ -1,7 +1,9 @@
 (* C13/Properties.v — property theorems only (partial: the logic cores of determinism). *)
-From Coq Require Import Lia Sorting.Permutation.
-From RM Require Import C13.Model C13.Proofs.
+From Coq Require Import Lia Sorting.Permutation String.
+From RM Require Import C13.Model C13.Proofs C13.Linux C13.ProofsLinux C13.Sites.
 From RM Require C12.Model C12.Proofs C13.Sched C13.ProofsSched.
+Open Scope string_scope.
+Open Scope list_scope.
 Open Scope Z_scope.
 
 (* ---- rendering does not depend on hash iteration order *)
@@ -128,6 +130,87 @@ Proof.
 Qed.
 Print Assumptions c13_stats_refuted.
 
+(* ---- Linux key/value streams (round 4) *)
+(* LinuxStandardBase::from is a fold over the lines in file order: every field of the result is the value of the
+   LAST line whose key is one of the field's spellings (the spellings are regenerated from the match arms,
+   Gen/C13Sites.v lsb_aliases) — a function of the line list, with no iteration-order parameter; so are the JSON
+   lsb_release object and the text line built from it *)
+Theorem c13_lsb_last_wins :
+  forall (lines : list kv) (f : fld), lsb_fold lines f = lsb_spec lines f.
+Proof. exact lsb_fold_last_wins. Qed.
+Print Assumptions c13_lsb_last_wins.
+
+Theorem c13_lsb_report_determined :
+  forall (lines : list kv),
+  lsb_json (lsb_fold lines) = lsb_json (lsb_spec lines) /\ lsb_text_line (lsb_fold lines) = lsb_text_line (lsb_spec lines).
+Proof.
+  intros lines. unfold lsb_json, lsb_text_line. rewrite !lsb_fold_last_wins. split; reflexivity.
+Qed.
+Print Assumptions c13_lsb_report_determined.
+
+(* the variant that de-duplicates the lines into a HashMap first and folds the MAP: two iteration orders of one
+   map (distinct keys), two reports — the two spellings of one field are different keys *)
+Theorem c13_lsb_map_refuted :
+  exists (lines : list kv) (p1 p2 : list kv -> list kv) (f : fld),
+  (forall m, Permutation (p1 m) m) /\ (forall m, Permutation (p2 m) m) /\ NoDup (map fst (to_kv_map lines)) /\
+  lsb_from_map p1 lines f <> lsb_from_map p2 lines f.
+Proof.
+  exists lsb_conflict, (fun m => m), (@rev kv), FId.
+  split; [intros m; apply Permutation_refl|]. split; [intros m; apply Permutation_sym, Permutation_rev|].
+  split; [exact lsb_conflict_keys_distinct|exact lsb_from_map_depends].
+Qed.
+Print Assumptions c13_lsb_map_refuted.
+
+(* ---- the per-thread walks in place (round 4) *)
+(* join_all over state.threads.iter_mut(): every piece of progress of future i transforms slot i only.  For ANY
+   two interleavings with the same per-thread event sequences (in particular: any completion order, any number of
+   suspensions in between) the final thread list is the same ... *)
+Theorem c13_walks_in_place_interleaving_independent :
+  forall (A : Type) (e1 e2 : list (nat * (A -> A))) (threads : list A),
+  (forall i, events_of i e1 = events_of i e2) -> run_events e1 threads = run_events e2 threads.
+Proof. exact @run_events_interleaving. Qed.
+Print Assumptions c13_walks_in_place_interleaving_independent.
+
+(* ... namely: slot i = thread i's own steps applied to thread i's initial stack, in thread-list order *)
+Theorem c13_walks_in_place_closed_form :
+  forall (A : Type) (evs : list (nat * (A -> A))) (threads : list A),
+  run_events evs threads = mapi_from 0 (fun i x => apply_all (events_of i evs) x) threads.
+Proof. exact @run_events_closed_form. Qed.
+Print Assumptions c13_walks_in_place_closed_form.
+
+(* join_all's result for every completion permutation *)
+Theorem c13_join_all_permutations :
+  forall (A : Type) (n : nat) (res : nat -> A) (completion : list nat),
+  Permutation completion (seq 0 n) -> join_all n res completion = map (fun i => Some (res i)) (seq 0 n).
+Proof. exact @join_all_permutation. Qed.
+Print Assumptions c13_join_all_permutations.
+
+(* collecting the stacks as the walks complete (buffer_unordered(..).collect()) is NOT a function of the thread list *)
+Theorem c13_collect_unordered_refuted :
+  exists (res : nat -> nat) (c1 c2 : list nat), Permutation c1 c2 /\ collect_unordered res c1 <> collect_unordered res c2.
+Proof.
+  exists (fun i => i), [0%nat; 1%nat], [1%nat; 0%nat]. split; [apply perm_swap|exact collect_unordered_depends].
+Qed.
+Print Assumptions c13_collect_unordered_refuted.
+
+(* ---- every hash-container iteration / future combinator of the source is one the theorems above cover *)
+Theorem c13_hash_sites_modelled : RM.Gen.C13Sites.hash_iteration_sites = map fst modelled_hash_sites.
+Proof. reflexivity. Qed.
+Print Assumptions c13_hash_sites_modelled.
+
+Theorem c13_concurrency_sites_modelled : RM.Gen.C13Sites.concurrency_sites = map fst modelled_concurrency_sites.
+Proof. reflexivity. Qed.
+Print Assumptions c13_concurrency_sites_modelled.
+
+(* the ASCII constants of the model are the words they stand for, and the byte table is the string table *)
+Theorem c13_constants_spelled :
+  N_ID = bytes_of_string "id" /\ N_RELEASE = bytes_of_string "release" /\ N_CODENAME = bytes_of_string "codename" /\
+  N_DESCRIPTION = bytes_of_string "description" /\ K_PID = bytes_of_string "Pid" /\ K_MICROCODE = bytes_of_string "microcode" /\
+  T_LINUX = bytes_of_string "Linux " /\
+  RM.Gen.C13Sites.lsb_alias_bytes = map (fun e => (map bytes_of_string (fst e), bytes_of_string (snd e))) RM.Gen.C13Sites.lsb_aliases.
+Proof. repeat split. Qed.
+Print Assumptions c13_constants_spelled.
+
 (* ---- non-vacuity *)
 Example c13_nonvacuous_render :
   render Z.ltb (fun e : Z * Z => snd e) [(3, 30); (1, 10); (2, 20)] = [10; 20; 30] /\
@@ -156,3 +239,21 @@ Proof.
   cbv zeta. split; [vm_compute; reflexivity|]. split; [vm_compute; reflexivity|].
   split; [intros k1 k2 _ _ H; exact H|]. split; vm_compute; reflexivity.
 Qed.
+
+(* an lsb-release stream with both spellings of the id, quoted and padded values: the last line wins *)
+Example c13_nonvacuous_lsb :
+  let data := (bytes_of_string "DISTRIB_ID=Ubuntu" ++ [10] ++ bytes_of_string "DISTRIB_RELEASE = 22.04 " ++ [10] ++
+               bytes_of_string "junk line" ++ [10] ++ [73; 68; 61; 34] ++ bytes_of_string "ubuntu" ++ [34; 10])%list in
+  lsb_json (lsb_from data) = [bytes_of_string "ubuntu"; bytes_of_string "22.04"; []; []] /\
+  lsb_text_line (lsb_from data) = bytes_of_string "Linux ubuntu 22.04 -  ()" /\
+  field_of_key (bytes_of_string "PRETTY_NAME") = Some FDescription.
+Proof. vm_compute. repeat split. Qed.
+
+(* three threads, two very different interleavings of the same per-thread steps *)
+Example c13_nonvacuous_in_place :
+  let a := (fun x => x + 1) in let b := (fun x => x * 2) in
+  let e1 := [(0%nat, a); (0%nat, b); (1%nat, b); (2%nat, a); (2%nat, a)] in
+  let e2 := [(2%nat, a); (1%nat, b); (0%nat, a); (2%nat, a); (0%nat, b)] in
+  run_events e1 [10; 20; 30] = [22; 40; 32] /\ run_events e2 [10; 20; 30] = [22; 40; 32] /\
+  collect_unordered (fun i => nth i [22; 40; 32] 0) [2%nat; 0%nat; 1%nat] = [32; 22; 40].
+Proof. repeat split. Qed.
